@@ -35,15 +35,15 @@ CasesTM == UNION {{<<"T", sh[1], sh[2], h, sp, m>> : h \in MarksFor(sh[1], {"non
                                                       m \in MergesFit(sh[1], sh[2])} : sh \in Shapes}
            \cup UNION {{<<"T", sh[1], sh[2], "first", sp, m>> : sp \in Specials(sh[1], sh[2], 1), m \in MergesFit(sh[1], sh[2])} : sh \in Shapes}
 \* full alphabet on small tables: <<"F", nr, nc, hm, kinds as a function>>
-CasesF == UNION {{<<"F", sh[1], sh[2], h, kd>> : h \in MarksFor(sh[1], {"none", "first", "all"}), kd \in [1..sh[1] -> [1..sh[2] -> CellKinds]]} :
+CasesF == UNION {{<<"F", sh[1], sh[2], h, kd>> : h \in MarksFor(sh[1], IF FullCells >= 4 THEN {"none", "first", "all"} ELSE {"none", "first"}), kd \in [1..sh[1] -> [1..sh[2] -> CellKinds]]} :
                    sh \in {x \in Shapes : x[1] * x[2] <= FullCells}}
 
 TableOf(d) ==
     IF d[1] = "T"
-    THEN [nr |-> d[2], nc |-> d[3], hm |-> d[4], hdr |-> 1 \in HdrRowsOf(d[4], d[2]),
+    THEN [nr |-> d[2], nc |-> d[3], off |-> 0, hm |-> d[4], hdr |-> 1 \in HdrRowsOf(d[4], d[2]),
           kind |-> [r \in 1..d[2] |-> [c \in 1..d[3] |-> KindOf(d[5], r, c)]],
           m |-> [r |-> d[6][1], c |-> d[6][2], rs |-> d[6][3], cs |-> d[6][4]]]
-    ELSE [nr |-> d[2], nc |-> d[3], hm |-> d[4], hdr |-> 1 \in HdrRowsOf(d[4], d[2]), kind |-> d[5], m |-> NoMerge]
+    ELSE [nr |-> d[2], nc |-> d[3], off |-> 0, hm |-> d[4], hdr |-> 1 \in HdrRowsOf(d[4], d[2]), kind |-> d[5], m |-> NoMerge]
 
 \* ---------------------------------------------------------------- headings
 CasesH == {<<"H", lv, off, mx>> : lv \in 1..9, off \in -2..7, mx \in 1..6}
@@ -60,23 +60,47 @@ CasesD == {<<"D", off, mx, me, toc>> : off \in {-1, 0, 2}, mx \in {2, 6}, me \in
 
 H(lv, w) == [t |-> "heading", level |-> lv, w |-> w]
 P(w) == [t |-> "para", w |-> w]
-DocTable == [nr |-> 2, nc |-> 3, hm |-> "first", hdr |-> TRUE,
+DocTable == [nr |-> 2, nc |-> 3, off |-> 0, hm |-> "first", hdr |-> TRUE,
              kind |-> <<<<"plain", "pipe", "plain">>, <<"empty", "nl", "padded">>>>, m |-> NoMerge]
 DocList == <<[d |-> 0, k |-> "u", w |-> "i1"], [d |-> 1, k |-> "u", w |-> "i2"], [d |-> 2, k |-> "u", w |-> "i3"],
              [d |-> 0, k |-> "u", w |-> "i4"]>>
+
+\* ---------------------------------------------------------------- block sequences
+\* <<"S", kinds, off>>: a document that is a sequence of 2..4 blocks of kinds T(able) H(eading) L(ist)
+\* P(aragraph) with at least one table: tables next to each other (two and three in a row) and next to
+\* every other block kind, as first and as last block.  The n-th table of a document is SeqTable(n).
+SeqTable(n) ==
+    CASE n = 1 -> [nr |-> 2, nc |-> 2, off |-> 0, hm |-> "first", hdr |-> TRUE, kind |-> <<<<"plain", "pipe">>, <<"plain", "plain">>>>, m |-> NoMerge]
+      [] n = 2 -> [nr |-> 1, nc |-> 2, off |-> 3, hm |-> "none", hdr |-> FALSE, kind |-> <<<<"plain", "empty">>>>, m |-> NoMerge]
+      [] OTHER -> [nr |-> 2, nc |-> 1, off |-> 6, hm |-> "lead2", hdr |-> TRUE, kind |-> <<<<"nl">>, <<"plain">>>>, m |-> NoMerge]
+\* (no two lists in a row: Markdown has no way to keep two adjacent lists of the same marker apart -
+\* a blank line between them makes one loose list - and the property is about items, not list borders)
+SeqKinds == {s \in UNION {[1..n -> {"T", "H", "L", "P"}] : n \in 2..3} :
+                 /\ \E x \in 1..Len(s) : s[x] = "T"
+                 /\ \A x \in 1..(Len(s) - 1) : ~(s[x] = "L" /\ s[x + 1] = "L")}
+            \cup {<<"H", "T", "T", "P">>, <<"L", "T", "T", "T">>, <<"T", "T", "L", "T">>}
+TablesBefore(s, x) == Cardinality({y \in 1..(x - 1) : s[y] = "T"})
+SeqEl(s, x) ==
+    CASE s[x] = "T" -> [t |-> "table", tb |-> SeqTable(TablesBefore(s, x) + 1)]
+      [] s[x] = "H" -> H(2, "h" \o ToString(x))
+      [] s[x] = "L" -> [t |-> "list", items |-> <<[d |-> 0, k |-> "u", w |-> "i" \o ToString(x) \o "a"], [d |-> 1, k |-> "o", w |-> "i" \o ToString(x) \o "b"]>>]
+      [] s[x] = "P" -> P("p" \o ToString(x))
+CasesS == {<<"S", s, off>> : s \in SeqKinds, off \in {0, 1}}
 
 McExpand(d) ==
     CASE d[1] \in {"T", "F"} -> [els |-> <<[t |-> "table", tb |-> TableOf(d)]>>, off |-> 0, mx |-> 6, meta |-> FALSE, toc |-> FALSE]
       [] d[1] = "H" -> [els |-> <<H(d[2], "hX"), P("pX")>>, off |-> d[3], mx |-> d[4], meta |-> FALSE, toc |-> FALSE]
       [] d[1] = "L" -> [els |-> <<[t |-> "list", items |-> ItemsOf(d[2], d[3])]>>, off |-> 0, mx |-> 6, meta |-> FALSE, toc |-> FALSE]
+      [] d[1] = "S" -> [els |-> [x \in 1..Len(d[2]) |-> SeqEl(d[2], x)], off |-> d[3], mx |-> 6, meta |-> FALSE, toc |-> FALSE]
       [] d[1] = "D" -> [els |-> <<H(1, "hA"), P("pA"), H(2, "hB"), [t |-> "list", items |-> DocList], P("pB"),
                                   [t |-> "table", tb |-> DocTable], H(3, "hC"), P("pC")>>,
                         off |-> d[2], mx |-> d[3], meta |-> d[4], toc |-> d[5]]
 
-AllCases == CasesTOk \cup CasesTM \cup CasesF \cup CasesH \cup CasesLOk \cup CasesD
+AllCases == CasesS \cup CasesTOk \cup CasesTM \cup CasesF \cup CasesH \cup CasesLOk \cup CasesD
 TableCases == CasesTOk \cup CasesTM
 \* the negative controls only need small tables
 ImplCases == {x \in TableCases : x[2] <= 2 /\ x[3] <= 2}
+SeqCases == {x \in CasesS : x[3] = 0}
 
 \* ---------------------------------------------------------------- emission
 Repeat(s, n) == FoldLeft(LAMBDA a, b : a \o s, "", [x \in 1..n |-> x])
@@ -90,7 +114,7 @@ LineText(ln) ==
       [] ln.t = "blank" -> ""
 
 ElOut(el) ==
-    CASE el.t = "table"   -> [t |-> "table", nr |-> el.tb.nr, nc |-> el.tb.nc, hdr |-> el.tb.hdr, hm |-> el.tb.hm,
+    CASE el.t = "table"   -> [t |-> "table", nr |-> el.tb.nr, nc |-> el.tb.nc, off |-> el.tb.off, hdr |-> el.tb.hdr, hm |-> el.tb.hm,
                               hrows |-> SetToSortSeq(HdrRowsOf(el.tb.hm, el.tb.nr), <), merged |-> HasMerge(el.tb),
                               src |-> Src(el.tb), special |-> Special(el.tb)]
       [] el.t = "heading" -> [t |-> "heading", level |-> el.level, w |-> el.w]
